@@ -27,3 +27,32 @@ package hydra
 //@   property C18
 //@   modifies *
 //@   ensures[only_the_closed_instance_is_unregistered] calls("Map.Delete") == old(calls("Map.Delete")) + 1 && calls("Map.Store") == old(calls("Map.Store")) && calls("Map.LoadOrStore") == old(calls("Map.LoadOrStore"))
+
+// A summoning slot: its condition variable owns a private mutex (sync.NewCond(&sync.Mutex{})), named here
+// by the cond field itself. `ready` (a summoner is building / looking up the instance) is protected by it.
+//@ type SwampWaiter
+//@   cond cond on cond
+//@   guarded_by cond: ready
+//@   invariant[cond_set] self.cond != nil
+//@ func (*hydra).getSwamp(h, n) (s)
+//@   opaque
+//@ func (*hydra).createNewSwamp(h, islandID, n) (s)
+//@   opaque
+//@   ensures s != nil
+//@ func (*hydra).hasEventSubscriber(h, n) (b)
+//@   opaque
+//@ func (*hydra).hasInfoSubscriber(h, n) (b)
+//@   opaque
+// SummonSwamp: one slot per call (LoadOrStore once); `ready` is only written under the slot's mutex; an
+// instance is built only right after the registry was observed to hold none for this name, and exactly
+// the instance just built is registered, once, under this name; the summoner itself never removes an
+// instance from the registry (its only Delete is the clean-up of its own slot); whatever is returned
+// without error is the registered instance or the one just built.
+//@ func (*hydra).SummonSwamp(h, ctx, islandID, swampName) (swampObj, err)
+//@   property C18
+//@   modifies *
+//@   before hydra.createNewSwamp [builds_only_after_the_registry_was_seen_empty_for_this_name] isnil(lastret("hydra.getSwamp")) && calls("hydra.getSwamp") > old(calls("hydra.getSwamp")) && calls("Map.LoadOrStore") == old(calls("Map.LoadOrStore")) + 1 && calls("Map.Store") == old(calls("Map.Store"))
+//@   before Map.Store [registers_exactly_the_instance_just_built] calls("hydra.createNewSwamp") == old(calls("hydra.createNewSwamp")) + 1 && calls("Map.Store") == old(calls("Map.Store")) && ipay(arg2) == ipay(lastret("hydra.createNewSwamp"))
+//@   ensures[one_slot_per_call] calls("Map.LoadOrStore") <= old(calls("Map.LoadOrStore")) + 1
+//@   ensures[at_most_one_instance_built_and_registered] calls("hydra.createNewSwamp") <= old(calls("hydra.createNewSwamp")) + 1 && calls("Map.Store") == old(calls("Map.Store")) + (calls("hydra.createNewSwamp") - old(calls("hydra.createNewSwamp")))
+//@   ensures[summoner_drops_at_most_its_own_slot] calls("Map.Delete") <= old(calls("Map.Delete")) + 1
